@@ -50,6 +50,7 @@ def _finish_tie(ctx, bag, name, prefix, site, klass, exhaustive=False, note=""):
     mism = list(errors)
     for i in bad[:50]:
         mism.append({"case": i, "input": bag.payloads[i]})
+    mism += [{"case": i} for i in bad[50:]]
     ctx.tie(name, "correspondence", len(bag.terms), len(bag.nontrivial), mism, exhaustive=exhaustive, note=note)
     # violation search: oracle verdicts first (smallest input first), then disagreeing cases judged by the oracle already
     judged = sorted(bag.verdicts, key=lambda iv: len(json.dumps(bag.payloads[iv[0]])))
@@ -402,7 +403,7 @@ def tie_layers(ctx):
                 verdicts.append((len(payloads) - 1, v))
     ctx.sample({"layer_case": {k: v for k, v in payloads[0].items() if k != "x"}, "coq_term": terms[0][:300]})
     bad, errors = cc.run_bool_cases(ctx, "layers", terms)
-    mism = list(errors) + [{"case": i, "input": payloads[i]} for i in bad[:50]]
+    mism = list(errors) + [{"case": i, "input": payloads[i]} for i in bad[:50]] + [{"case": i} for i in bad[50:]]
     ctx.tie("convpool/layer classes (constructor normalisation + forward)", "correspondence", len(terms), len(descr), mism,
             note="nn.Conv2d/Conv1d (padding 'same'|'valid'|int|tuple, int vs tuple vs 1-tuple vs bad tuples), MaxPool/AvgPool 1d/2d (default stride), "
                  "nn.Unfold and F.unfold with int and tuple kernel sizes: normalised attributes and layer outputs vs conv2d_ctor/pool2d_ctor/unfold_ctor + the op model")
